@@ -13,10 +13,11 @@ use lrtable::{from_yacc, Minimiser};
 
 /// LR(1)-but-not-LALR(1) families and grammars whose merges are discovered late
 fn families(rng: &mut Rng) -> String {
-    let pick = rng.below(12);
+    let pick = rng.below(15);
     match pick {
         6..=8 => grammar::general_contexts(rng),
         9..=11 => grammar::nullable_tail_family(rng),
+        12..=14 => grammar::cascade_family(rng),
         0 => {
             // S: a A d | b B d | a B e | b A e; A: c; B: c  generalised to k contexts
             let k = rng.range(2, 4);
